@@ -64,7 +64,28 @@ func c18CheckU(c *core.Ctx, st *c18state, v uint64) {
 	if rv != v || n != len(got) {
 		rec.Violation("varint-read", fmt.Sprintf("ReadVarUint(%x) = (%d,%d) want (%d,%d)", got, rv, n, v, len(got)), nil)
 	}
-	// appended to a non-empty prefix: prefix kept, same bytes
+	// appended to destinations of every shape: 0-3 bytes of content, 0-11 bytes of spare capacity
+	// (none, less than the varint needs, exactly enough, more): content kept, same bytes after it
+	if pow2 := func(x uint64) bool { return x&(x-1) == 0 }; v&0xff == 0x5a || pow2(v) || pow2(v+1) || pow2(v-1) {
+		for l := 0; l <= 3; l++ {
+			for spare := 0; spare <= 11; spare++ {
+				dst := make([]byte, l+spare)
+				for i := range dst {
+					dst[i] = 0xE0 + byte(i)
+				}
+				out := plenccore.AppendVarUint(dst[:l:l+spare], v)
+				ok := len(out) == l+len(ref) && bytes.Equal(out[l:], ref)
+				for i := 0; ok && i < l; i++ {
+					ok = out[i] == 0xE0+byte(i)
+				}
+				if !ok {
+					rec.Violation("varint-append-prefix", fmt.Sprintf("AppendVarUint(dst with len %d cap %d, %d) = %x, want the %d content bytes e0.. followed by %x", l, l+spare, v, out, l, ref), nil)
+					return
+				}
+			}
+		}
+		rec.Count("destination_shapes_tried", 48)
+	}
 	if v&0xff == 0x5a {
 		pre := []byte{0xAA, 0xBB}
 		out := plenccore.AppendVarUint(pre, v)
